@@ -205,6 +205,11 @@ def explore_user(ctx, props, n_prim, n_op=0, n_cyclic=0):
     for i in range(n_prim + n_op + n_cyclic):
         cyc = i >= n_prim + n_op
         case = gen_user_case(rng, ctx.tier, cyclic=cyc)
+        if case["failing"]:
+            # every kind of failure comes round regularly (not left to the draw)
+            kinds = list(plans.EXC)
+            for idx, k in enumerate(sorted(case["failing"])):
+                case["failing"][k] = kinds[(i + idx) % len(kinds)]
         mode = "opcode" if n_prim <= i < n_prim + n_op else "prim"
         seed = rng.randrange(1 << 30)
         r = run_user_case(case, seed, mode=mode)
